@@ -220,6 +220,7 @@ package consul
 //@   ensures forall i int :: 0 <= i && i < len(result) ==> defService(result[i]) == r.svc.ServiceName
 //@   // ... and, at the point where it is emitted, the prefix of its tag, the destination and weight chosen for it, the
 //@   // service's plain tags and the tag's option words
+//@   at "config = append(config, cfg)" assert accepts(cfg) && singleAdd(cfg) && tableAccepts(cfg) && len(config) >= 1 && config[len(config)-1] == cfg
 //@   at "config = append(config, cfg)" assert @C14 defService(cfg) == r.svc.ServiceName && defSrc(cfg) == route && defDst(cfg) == dst && defWeight(cfg) == (weight == "" ? 0.0 : parseFloatVal(weight, 64))
 //@   at "config = append(config, cfg)" assert @C14 !(len(svctags) == 1 && svctags[0] == "") ==> defTagsLen(cfg) == len(svctags) && forall i int :: 0 <= i && i < len(svctags) ==> defTag(cfg, i) == svctags[i]
 //@   at "config = append(config, cfg)" assert @C14 forall j int, k string :: 0 <= j && j < len(ropts) && k == optKey(ropts[j]) ==> defOptHas(cfg, k)
@@ -229,9 +230,11 @@ package consul
 //@   loop 2 invariant cap(config) == 0 || fresh(config)
 //@   loop 2 invariant cap(config) == 0 || cap(svctags) == 0 || ref(config) != ref(svctags)
 //@   loop 3 invariant cap(config) == 0 || cap(svctags) == 0 || ref(config) != ref(svctags)
-//@   loop 2 invariant forall i int :: 0 <= i && i < len(config) ==> accepts(config[i]) && singleAdd(config[i]) && tableAccepts(config[i]) && defService(config[i]) == r.svc.ServiceName
+//@   loop 2 invariant forall i int :: 0 <= i && i < len(config) ==> accepts(config[i]) && singleAdd(config[i]) && tableAccepts(config[i])
+//@   loop 2 invariant forall i int :: 0 <= i && i < len(config) ==> defService(config[i]) == r.svc.ServiceName
 //@   loop 3 invariant (cap(config) == 0 || fresh(config)) && (cap(ropts) == 0 || fresh(ropts)) && (cap(config) == 0 || cap(ropts) == 0 || ref(config) != ref(ropts))
-//@   loop 3 invariant forall i int :: 0 <= i && i < len(config) ==> accepts(config[i]) && singleAdd(config[i]) && tableAccepts(config[i]) && defService(config[i]) == r.svc.ServiceName
+//@   loop 3 invariant forall i int :: 0 <= i && i < len(config) ==> accepts(config[i]) && singleAdd(config[i]) && tableAccepts(config[i])
+//@   loop 3 invariant forall i int :: 0 <= i && i < len(config) ==> defService(config[i]) == r.svc.ServiceName
 //@   // the service's plain tags and the route options are put into the command through strconv.Quote: what a tag
 //@   // contains (quotes, line breaks) can never end the quoted field early and smuggle in grammar of its own
 //@   at "cfg += \" tags \" + strconv.Quote(strings.Join(svctags, \",\"))" assert exists p string :: cfg == p + (" tags " + strQuote(joinSpec(svctags, ",", len(svctags))))
